@@ -51,6 +51,7 @@ class Engine:
         self.ufs = {}
         self.nbranches = 0
         self._ev_cache = {}
+        self._dcache = {}
 
     # ------------------------------------------------------------------ solver
     def _check(self, *c):
@@ -815,6 +816,23 @@ class Engine:
         return self._dispatch(fname, argv, fr)
 
     def _dispatch(self, fname, argv, fr):
+        h = self._dcache.get(fname)
+        if h is None:
+            h = self._resolve_handler(fname)
+            self._dcache[fname] = h
+        kind, tgt, ci = h
+        if kind == 'model':
+            return tgt(self, ci, *argv)
+        if kind == 'crate':
+            return self.call_fn(tgt, argv, ci)
+        if kind == 'ctor':
+            return Agg(tgt[0], tgt[1], list(argv))
+        m = M.fallback(self, ci, argv, fr)
+        if m is not None:
+            return m
+        raise ModelGap(f'no model for call `{fname}` keys={ci.keys}')
+
+    def _resolve_handler(self, fname):
         ci = callinfo(fname)
         st = ci.stripped
         # 1. symbolic intrinsics
@@ -822,30 +840,26 @@ class Engine:
             m = M.INTRINSICS.get(ci.method)
             if m is None:
                 raise ModelGap('unknown sym intrinsic ' + st)
-            return m(self, ci, *argv)
-        # 2. generic parameter dispatch inside generic crate fns (D::new() etc.)
-        # 3. crate bodies
+            return ('model', m, ci)
+        # 2. crate bodies (a few models take precedence)
         f = self.prog.resolve(fname)
         if f is not None:
             pri = M.PRIORITY.get(ci.keys[0])
             if pri is not None:
                 self.models_used.add(ci.keys[0])
-                return pri(self, ci, *argv)
-            return self.call_fn(f, argv, ci)
-        # 4. enum variant / tuple struct constructor used as a function
+                return ('model', pri, ci)
+            return ('crate', f, ci)
+        # 3. enum variant / tuple struct constructor used as a function
         ev = self.enum_variant(fname)
         if ev and ci.kind == 'path':
-            return Agg(ev[0], ev[1], list(argv))
-        # 5. models
+            return ('ctor', ev, ci)
+        # 4. models
         for key in ci.keys:
             m = M.MODELS.get(key)
             if m is not None:
                 self.models_used.add(key)
-                return m(self, ci, *argv)
-        m = M.fallback(self, ci, argv, fr)
-        if m is not None:
-            return m
-        raise ModelGap(f'no model for call `{fname}` keys={ci.keys}')
+                return ('model', m, ci)
+        return ('fallback', None, ci)
 
     def call_value(self, fv, args):
         """call a closure value / fn item with positional args"""
